@@ -19,7 +19,7 @@ RULE = ("deterministic paths of STV (both modes), SequentialRCV, Plurality, Bord
         "non-trivial = >=2 candidates with weight and >=2 ballots")
 
 RULES = ["STV", "STV1", "SequentialRCV", "Plurality", "Borda", "TopTwo", "Alaska", "DominatingSets", "CondoBorda", "Approval", "utils"]
-REN = {"A": "Anna", "B": "Ann", "C": "zed", "D": "An"}  # sort order != original order; names contained in one another
+REN = {"A": "Anna", "B": "Ann", "C": "zed", "D": "An", "E": "b", "F": "Zed", "G": "a"}  # sort order != original order; names contained in one another
 HASHSEEDS = ("0", "1", "2")  # quick uses the first two
 
 
@@ -40,6 +40,17 @@ def cases(tier, seed):
                     if (i + len(rule)) % 3 and rule not in ("utils", "STV"):
                         continue
                     cs.append((rule, cands, bl, 1 + i % 3))
+    # seven candidates, short ballots leaving six of them unranked (pairwise comparisons between unranked candidates stay even)
+    c7 = gen.NAMES[:7]
+    r7 = random.Random(7)
+    for j in range(16):
+        bl = [((frozenset([r7.choice(c7)]),), F(r7.randint(1, 3))) for _ in range(r7.randint(1, 3))]
+        p7 = c7[:]
+        r7.shuffle(p7)
+        bl.append((tuple(frozenset([c]) for c in p7), F(r7.randint(1, 2))))  # one full ranking orders everybody
+        cs.insert(0, ("DominatingSets", c7, bl, 1))
+        if j % 4 == 0:
+            cs.insert(0, ("CondoBorda", c7, bl, 1 + j % 3))
     if tier == "thorough":
         rng = random.Random(seed)
         for cands, bl in gen.profiles_random(rng, 1500, ncands_range=(3, 4), nballots_range=(2, 5), weights=(1, 2, F(1, 2))):
